@@ -153,6 +153,9 @@ BOXED = {
     ("ExprUnary", "expr"): "box", ("ExprBinary", "left"): "box", ("ExprBinary", "right"): "box", ("ExprParen", "expr"): "box",
     ("ExprCall", "func"): "box", ("ExprMethodCall", "receiver"): "box", ("ExprCast", "expr"): "box", ("ExprCast", "ty"): "box",
     ("ExprGroup", "expr"): "box", ("ExprReference", "expr"): "box",
+    ("ItemFn", "block"): "box", ("ItemImpl", "self_ty"): "box", ("ExprWhile", "cond"): "box", ("ExprForLoop", "expr"): "box", ("ExprIf", "cond"): "box",
+    ("ExprClosure", "body"): "box", ("ExprMatch", "expr"): "box", ("Arm", "body"): "box", ("ExprLet", "expr"): "box", ("PatType", "ty"): "box",
+    ("LocalInit", "expr"): "box",
 }
 
 
